@@ -1,2 +1,10 @@
 (* C03 — the property theorems about the scheduler model, and nothing else. *)
 From VF Require Import Sched.Proofs.
+Open Scope Z_scope.
+
+(* An Execute request with do_not_cache set never writes the in-flight
+   deduplication map (whatever else its critical section does). *)
+Theorem exec_start_dnc_keeps_inflight : forall c a s,
+  x_dnc a = true -> s_inflight (exec_start c a s) = s_inflight s.
+Proof. exact exec_start_dnc_keeps_inflight. Qed.
+Print Assumptions exec_start_dnc_keeps_inflight.
